@@ -264,9 +264,15 @@ SPEC["C20"] = {
        (C20_extension_gate);
      - registering a well-formed definition keeps the tables well-formed, so C07's invariant
        applies to scripts using it (C20_register_wf).
-   Serialisation re-parsing to the same tree is exercised on the implementation and on the model
-   (correspondence with definitions registered at run time), not proved.""",
-    "imports": SIEVE_IMPORTS + "From SV Require Import ArgCheckFacts GateFacts RegisterFacts PositionFacts TotalFacts CompleteFacts.\n",
+     - serialisation: the round-trip theorem of C04 is stated for any tables satisfying two decidable conditions;
+       registering a definition that satisfies their per-definition parts ([def_ok]: argument names distinct,
+       no slot taking both numbers and strings, the name an identifier; [twf]) keeps them
+       (C20_register_keeps_conditions), hence every printable script of the grammar over the extended tables is
+       printed to a text that is accepted, parses to a tree with the same content and prints to the same text
+       again (C20_registered_roundtrip); example with a command registered on top of the generated tables.
+   The registration path of the implementation (commands.add_commands) is compared with [register] by
+   definitions registered at run time (correspondence).""",
+    "imports": SIEVE_IMPORTS + "From SV Require Import ArgCheckFacts GateFacts RegisterFacts PositionFacts TotalFacts CompleteFacts CompleteTree RenderFacts PrintTree CanonFacts CanonTree RegisterTree.\n",
     "theorems": [
         ("C20_argcheck_generic", "ArgCheckFacts.argcheck_correct_gen",
          "generic in the definition: complete / incomplete / rejected exactly as [legal] says, values under the defined names"),
@@ -278,6 +284,10 @@ SPEC["C20"] = {
         ("C20_extension_gate", "RegisterFacts.registered_extension_gate",
          "a registered command with an extension is refused with extension-not-loaded until it is required"),
         ("C20_register_wf", "RegisterFacts.register_wf", "registration preserves table well-formedness (C07's invariant applies)"),
+        ("C20_register_keeps_conditions", "RegisterTree.register_tbl_ok", "registering a definition that is [def_ok] under its lower-cased name keeps the table conditions of the round-trip theorem"),
+        ("C20_registered_roundtrip", "RegisterTree.registered_print_parse", "scripts using registered commands: printed text accepted, same content, same text again"),
+        ("C20_example_definition", "RegisterTree.ex_def_ok", "non-vacuity: a definition with a tag group, a tag with a numeric parameter and a string/list positional meets the conditions"),
+        ("C20_example_roundtrip", "RegisterTree.ex_registered_roundtrip", "... and, evaluated: parsed in mixed case with tags out of order, printed in definition order, re-parsed, printed again"),
         ("C20_registered_action_parsed", "CompleteFacts.parse_single_action",
          "end to end for a registered action (instantiate T := register key d T0, lookup by C20_no_extension): every use the definition allows is accepted and recorded under the defined names"),
     ],
